@@ -1,5 +1,6 @@
 import ScriggoV.Lemmas.BvInt
 import ScriggoV.Lemmas.Compile
+import ScriggoV.Lemmas.CompileCond
 import ScriggoV.Model.Eval
 /-! # C01, stage one — the integer core of "interpreted programs behave like gc"
 
@@ -423,5 +424,73 @@ example : NonNegShifts [1, 200] (.sh .shr (.var .int32 0) (.var .uint8 1)) ∧
     rw [this] at h; cases h; decide
   · intro ⟨_, _, h⟩
     exact absurd (h .int (-1) (by decide)) (by decide)
+
+/-! ## conditions — `emitCondition`
+
+The condition of an `if` / `for` and the `tag != case` test of a `switch` are compiled by
+`emitCondition`, with fast paths (comparison with the constant 0, `len` of a string on either side
+— with the operator inverted by `invertedOperatorType` when it is on the right —, `!x`, constants)
+and a final `If` that skips the jump over the body exactly when the condition holds.
+`Model/CompileCond.lean` models it (`compileCond`, `runCond`); the tables `inverted`, `lenCond`
+(emitter.go) and the `ConditionLen…` bodies `vmIfLen` (run.go) are regenerated. -/
+
+/-- **`invertedOperatorType` is right**: the operator it returns, applied to the swapped operands,
+is the original comparison — for all six operators and all operand values (`x > len(s)` is
+`len(s) < x`, not `len(s) <= x`: the two differ exactly at `x = len(s)`). -/
+theorem inverted_correct (op : CmpOp) (a b : Int) : cmp (invOp op) b a = cmp op a b :=
+  invOp_correct op a b
+
+/-- the `ConditionLen…` cases of `OpIfString`, with the condition `emitCondition` picks for an
+operator, compute that operator on `len(s)` and the other operand -/
+theorem lenCondition_correct (op : CmpOp) (l z : Int) :
+    vmIfLen (lenCond (srcCmpOf op)) l z = cmp op l z ∧
+    vmIfLen (lenCond (inverted (srcCmpOf op))) l z = cmp op z l := by
+  constructor
+  · rw [lenCond_spec, cmpOfSrc_srcCmpOf]
+  · rw [lenCond_spec]; exact invOp_correct op z l
+
+example : cmp .gt 2 2 = false ∧ cmp (invOp .gt) 2 2 = false ∧ cmp .le 2 2 = true := by decide
+
+/-- **Conditions compile correctly** (every path of `emitCondition` in the integer/bool fragment:
+constant, comparison with 0, `len(s) op y`, `y op len(s)`, generic integer comparison, `!v`, `v`):
+for ALL operand values — the equality boundaries included — running the code and the final `If`
+reports `true` (the jump over the body is skipped: the body runs) iff the reference semantics
+`evalCond` says `true`; no register live before changes; a fault in an operand is the same fault.
+Partial like `compile_correct_partial`: no shift inside an operand is executed with a negative
+count (`CondNonNeg`). -/
+theorem compileCond_correct_partial (vr vb vs : Nat → Nat) (ρ : Env) (β : List Bool) (σ : List Nat)
+    (slen : Nat → Nat) (c : CondE) (st : St) (rf : RegFile) (nv : Nat) (tbl : List (BitVec 64))
+    (ht : CondTyped c) (hv : CondVarsIn vr vb vs ρ β σ slen rf nv c) (hs : CondNonNeg ρ c)
+    (hnv : nv ≤ st.numRegs) (hp : (compileCond vr vb vs c st).st.consts <+: tbl) :
+    match evalCond ρ β σ c with
+    | .ok b => ∃ rf', runCond tbl slen (compileCond vr vb vs c st) rf = .ok (rf', b) ∧
+        ∀ r, r ≤ st.numRegs → rf' r = rf r
+    | .error f => runCond tbl slen (compileCond vr vb vs c st) rf = .error f := by
+  have h := (compileCond_post opcodeFacts vr vb vs ρ β σ slen c st rf nv ht hv hs hnv).2.2 tbl hp
+  unfold CondPost at h
+  cases hev : evalCond ρ β σ c <;> rw [hev] at h <;> exact h
+
+/-- **full strength for conditions without shift operators** (in particular every
+`x op len(s)` / `len(s) op x` / `x op y` / `x == 0` over variables and constants) -/
+theorem compileCond_correct (vr vb vs : Nat → Nat) (ρ : Env) (β : List Bool) (σ : List Nat)
+    (slen : Nat → Nat) (c : CondE) (st : St) (rf : RegFile) (nv : Nat) (tbl : List (BitVec 64))
+    (ht : CondTyped c) (hv : CondVarsIn vr vb vs ρ β σ slen rf nv c) (hns : condNoShift c = true)
+    (hnv : nv ≤ st.numRegs) (hp : (compileCond vr vb vs c st).st.consts <+: tbl) :
+    match evalCond ρ β σ c with
+    | .ok b => ∃ rf', runCond tbl slen (compileCond vr vb vs c st) rf = .ok (rf', b) ∧
+        ∀ r, r ≤ st.numRegs → rf' r = rf r
+    | .error f => runCond tbl slen (compileCond vr vb vs c st) rf = .error f :=
+  compileCond_correct_partial vr vb vs ρ β σ slen c st rf nv tbl ht hv (condNonNeg_of_noShift ρ c hns) hnv hp
+
+-- non-vacuity at the boundary: `v0 > len(s0)` with v0 = 2 = len(s0) (string register s1, length 2)
+example :
+    let c : CondE := .lenR .gt (.var .int 0) 0
+    let rf : RegFile := fun _ => reg 2
+    CondTyped c ∧ condNoShift c = true ∧
+    CondVarsIn (· + 1) (· + 2) (· + 1) [2] [] [2] (fun _ => 2) rf 1 c ∧
+    (compileCond (· + 1) (· + 2) (· + 1) c ⟨1, []⟩).code = [] ∧
+    (compileCond (· + 1) (· + 2) (· + 1) c ⟨1, []⟩).test = .len 1 .lenLess (.reg 1) ∧
+    evalCond [2] [] [2] c = .ok false := by
+  refine ⟨rfl, rfl, ⟨⟨by decide, 2, rfl, by decide, by decide⟩, rfl⟩, by decide, by decide, rfl⟩
 
 end ScriggoV.C01
